@@ -520,14 +520,8 @@ func (in *Interp) ubound(t *Term) int {
 
 func (in *Interp) makeSlice(th *Thread, fr *Frame, x *ssa.MakeSlice) (Value, bool) {
 	ts := in.ts
-	l := in.get(fr, x.Len).(BVv).T
-	c := in.get(fr, x.Cap).(BVv).T
-	if l.sort.W < 64 {
-		l = ts.SExt(l, 64)
-	}
-	if c.sort.W < 64 {
-		c = ts.SExt(c, 64)
-	}
+	l := in.to64(in.get(fr, x.Len), x.Len.Type())
+	c := in.to64(in.get(fr, x.Cap), x.Cap.Type())
 	// len < 0 || len > cap => panic
 	bad := ts.Or(ts.SLt(l, in.bv64(0)), ts.SLt(c, l))
 	if in.branch(bad) {
